@@ -54,13 +54,14 @@ RULE = (
 )
 CLASSES = [
     "nested_dict", "list_mutation", "multi_handle", "project_doc", "buffer_cap0", "nested_blocks", "forced_flush",
-    "doc_after_remove", "doc_after_rekey", "attr_access", "type_drift", "write_deferred", "keyerror_matched",
+    "multi_handle_in_block", "stale_object_in_block", "doc_after_remove", "doc_after_rekey", "attr_access", "assign_live_view", "type_drift", "write_deferred", "keyerror_matched",
     "lifecycle_between_blocks", "job_clear", "copy_handle_follows_rekey", "capacity_in_block",
 ]
 ASSUMPTIONS = [
     "document equality is Python == on the parsed values; a missing document file is the empty document",
     "keys are str without dots; attribute access only for the identifier keys x, y, foo, n",
-    "inside a buffered block only one handle per document is used and only it is asserted (documented restriction)",
+    "inside a buffered block reads are asserted only while a single handle has touched the document in that block "
+    "(2/3 of the cases use one handle per document and block; 1/3 let all handles act and assert the files on exit)",
     "no external write to a document file while a buffered block is open",
     "job.remove() / state point changes are not mapping operations: open buffered blocks are left before them and "
     "entered again afterwards (inside an open block they are outside the statement)",
@@ -74,7 +75,14 @@ KF = {
     # synced_collections: SyncedDict._update / SyncedList._update call existing._update(None) when the new value is
     # None and the existing one is a nested collection; _update(None) means "leave unchanged".
     "none_over_collection": lambda case, mm: mm.detector == "none_over_collection",
+    # synced_collections: at a flush the first registered collection object popped for a file decides from its OWN
+    # in-memory data whether the file needs writing and then drops the shared buffer entry. An object that touched
+    # the document before another object wrote to it in the same block holds stale data: the write is lost (or the
+    # stale object keeps its view when the file does not exist on exit). Only histories with such a stale object,
+    # and only silent divergences of that document (never an exception), are attributed to it.
+    "stale_object_flush": lambda case, mm: mm.detector == "stale_object_flush" and bool(case.get("unpin")),
 }
+SILENT = ("readback", "file", "other_handle", "buffered_readback")
 
 ATTR_KEYS = ["x", "y", "foo", "n"]
 MAIN_KEYS = ATTR_KEYS + ["k"]
@@ -85,7 +93,7 @@ PROJECT_DOC = "signac_project_document.json"
 
 WRITE_OPS = (
     "setitem", "setattr", "delitem", "delattr", "update", "update_kw", "update_pairs", "setdefault", "pop", "pop_default",
-    "clear", "reset", "assign_doc",
+    "clear", "reset", "assign_doc", "assign_self",
 )
 NESTED_DICT_OPS = ("nested_set", "nested_update", "nested_del", "nested_clear", "nested_setdefault")
 LIST_OPS = (
@@ -251,6 +259,8 @@ class Run:
         self.used = [set() for _ in range(self.nj + 1)]
         self.stack = []  # open buffered blocks: (kind, arg, context manager)
         self.pin = {}
+        self.block_touch = {}
+        self.stale_targets = set()
         self.block_writes = 0
         self.block_files = set()
         self.setcap_applied = False
@@ -356,6 +366,7 @@ class Run:
         self.stack.append((kind, arg, cm))
         if len(self.stack) == 1:
             self.pin = {}
+            self.block_touch = {}
             self.block_writes = 0
             self.block_files = set()
         else:
@@ -386,6 +397,7 @@ class Run:
             )
             return
         self.pin = {}
+        self.block_touch = {}
         self.verify_all("after leaving the buffered block")
 
     def close_all(self):
@@ -408,6 +420,9 @@ class Run:
                 fatal=False,
             )
             return "quirk"
+        if t in self.stale_targets and detector in SILENT:
+            self.quirk = True
+            detector = "stale_object_flush"
         self.mm(detector, f"{what} of target {t} is {real!r}, model {m!r}")
         return False
 
@@ -539,6 +554,16 @@ class Run:
             return (lambda: D().clear()), (lambda: M[t].clear()), {"write": True}
         if name == "reset":
             return (lambda: D().reset(jcopy(mp))), (lambda: M.__setitem__(t, jcopy(mp))), {"write": True}
+        if name == "assign_self":
+            # the document assigned to itself (its own live view, or the view held by another handle on the
+            # same file -- outside buffered blocks): the content must stay what it is
+            a = "document" if alias else "doc"
+            src_h = h
+            if not self.stack and isinstance(op.get("from"), int):
+                hs = self.handles[t]
+                src_h = hs[op["from"] % len(hs)]
+            self.cl.add("assign_live_view")
+            return (lambda: setattr(h["obj"], a, src_h["obj"].doc)), (lambda: None), {"write": True}
         if name == "assign_doc":
             a = "document" if alias else "doc"
             return (lambda: setattr(h["obj"], a, jcopy(mp))), (lambda: M.__setitem__(t, jcopy(mp))), {"write": True}
@@ -760,7 +785,18 @@ class Run:
                 return
             self.cl.add("lifecycle_between_blocks")
         if self.stack:
-            hidx = self.pin.setdefault(t, hidx)
+            if self.case.get("unpin"):
+                # several handles act on one document inside the block: the files left on exit are still
+                # asserted; reads inside the block only while a single handle has touched the document
+                self.block_touch.setdefault(t, set()).add(hidx)
+                if len(self.block_touch[t]) >= 2:
+                    self.cl.add("multi_handle_in_block")
+                    if name in WRITE_OPS + NESTED_DICT_OPS + LIST_OPS + ("job_clear",):
+                        # another document object touched this file earlier in the block and is stale from now on
+                        self.stale_targets.add(t)
+                        self.cl.add("stale_object_in_block")
+            else:
+                hidx = self.pin.setdefault(t, hidx)
         h = self.handles[t][hidx]
         if self.mode == "U":
             self.used[t].add(hidx)
@@ -790,7 +826,14 @@ class Run:
                 self.block_files.add(t)
                 if self.block_writes >= 2 and len(self.block_files) >= 2:
                     self.nontrivial = True
-            self.verify_in_block(t, hidx, wrote)
+            if len(self.block_touch.get(t, ())) < 2:
+                self.verify_in_block(t, hidx, wrote)
+            else:
+                # not asserted; only follow what the dependency's None-over-collection rule (F-DOCNONE) did
+                real = self.observe(t, hidx)
+                if not self.fatal and isinstance(real, dict) and real != self.model[t] and quirk_shape(self.model[t], real):
+                    self.compare(t, real, "buffered_readback", "inside a buffered block: document() through the acting handle")
+                    self.model[t] = jcopy(real)
         else:
             self.verify_target(t, hidx)
         if reopen and not self.fatal:
@@ -837,7 +880,7 @@ class Run:
             return
         if flags.get("result"):
             ok = rres == mres
-            if not ok and quirk_shape(mres, rres) if isinstance(mres, (dict, list)) else False:
+            if not ok and not isinstance(mres, tuple) and quirk_shape(mres, rres):
                 self.quirk = True
                 self.mm("none_over_collection", f"returned {rres!r}, plain dict/list gives {mres!r}", fatal=False)
                 return
@@ -1013,7 +1056,7 @@ documents = st.dictionaries(st.sampled_from(MAIN_KEYS), any_value, max_size=4)
 
 _W = [
     ("setitem", 10), ("setattr", 4), ("delitem", 4), ("delattr", 2), ("update", 5), ("update_kw", 2), ("update_pairs", 1),
-    ("setdefault", 3), ("pop", 2), ("pop_default", 2), ("clear", 1), ("reset", 3), ("assign_doc", 3),
+    ("setdefault", 3), ("pop", 2), ("pop_default", 2), ("clear", 1), ("reset", 3), ("assign_doc", 3), ("assign_self", 1),
     ("nested_set", 6), ("nested_update", 3), ("nested_del", 2), ("nested_clear", 1), ("nested_setdefault", 1),
     ("list_append", 4), ("list_extend", 2), ("list_iadd", 1), ("list_insert", 2), ("list_pop", 2), ("list_setitem", 2),
     ("list_remove", 2), ("list_delitem", 1), ("list_clear", 1),
@@ -1051,6 +1094,8 @@ def one_op(draw, ntargets):
     if name == "job_rekey":
         op["v"] = draw(st.integers(0, 3))
         op["via"] = draw(st.sampled_from(["setitem", "attr", "update_statepoint", "assign"]))
+    if name == "assign_self" and draw(st.booleans()):
+        op["from"] = draw(st.integers(0, 2))
     if name in ("assign_doc", "setitem", "read_call", "update") and draw(st.integers(0, 3)) == 0:
         op["alias"] = True
     if name in READ_OPS and draw(st.integers(0, 2)) == 0:
@@ -1083,6 +1128,7 @@ def cases(draw, max_ops=30):
     return {
         "targets": nt,
         "keepref": draw(st.booleans()),
+        "unpin": draw(st.integers(0, 2)) == 0,
         "nh": draw(st.sampled_from([1, 2, 3, 3])),
         "init": init,
         "copy_after_doc": draw(st.booleans()),
@@ -1122,6 +1168,10 @@ def _c(ops, **kw):
 
 
 CONSTRUCTED = [
+    # the document assigned to its own live view (project and job document, also from a second handle)
+    {"targets": 1, "keepref": False, "nh": 2, "init": [{"x": 1, "n": {"y": [1]}}, {"p": 2}], "copy_after_doc": False, "mode_R": [], "capacity": None, "ops": [
+        {"op": "assign_self", "t": 1, "h": 0}, {"op": "read_call", "t": 1, "h": 1}, {"op": "assign_self", "t": 1, "h": 0, "from": 1},
+        {"op": "assign_self", "t": 0, "h": 0}, {"op": "assign_self", "t": 0, "h": 1, "from": 0}, {"op": "setitem", "t": 0, "h": 0, "k": "k", "v": 1}]},
     # held reference + read-only fresh accesses in between, on a job / project without a document file yet
     {"targets": 1, "keepref": True, "nh": 1, "init": [None, None], "copy_after_doc": False, "mode_R": [], "capacity": None, "ops": [
         {"op": "setitem", "t": 0, "h": 0, "k": "a", "v": 1}, {"op": "delitem", "t": 0, "h": 0, "k": "a"},
@@ -1165,6 +1215,16 @@ CONSTRUCTED = [
     ], targets=2, capacity=64,
         mode_R=[{"pos": 1, "kind": "open"}, {"pos": 3, "kind": "open_cap", "arg": 0}, {"pos": 5, "kind": "close"},
                 {"pos": 6, "kind": "set_cap", "arg": 1}, {"pos": 8, "kind": "close"}]),
+    # a second, not yet used handle assigns the whole document inside a block in which the first handle
+    # already read / edited it: the files on exit must be those of the unbuffered run
+    _c([
+        {"op": "setitem", "t": 0, "h": 0, "k": "x", "v": 1},
+        {"op": "assign_doc", "t": 0, "h": 1, "m": {"y": [1]}},
+        {"op": "setitem", "t": 0, "h": 0, "k": "k", "v": 2},
+        {"op": "read_call", "t": 1, "h": 0},
+        {"op": "assign_doc", "t": 1, "h": 2, "m": {"n": 1}},
+        {"op": "setitem", "t": 1, "h": 0, "k": "foo", "v": {}},
+    ], unpin=True, nh=3, init=[{"k": 0}, {"p": 1}]),
     # capacity 0
     _c([
         {"op": "setitem", "t": 0, "h": 0, "k": "x", "v": 1},
